@@ -866,7 +866,9 @@ def mon_C18(ctx):
         return
     E = ctx.E
     acts = ctx.acts
-    n2c = name2cid(ctx)
+    names = {}
+    for c_ in E.C:
+        names.setdefault(c_.name, []).append(c_.cid)
     if not acts:
         ctx.bad('empty-record', TRUE)
         return
@@ -892,15 +894,14 @@ def mon_C18(ctx):
             named = None
             if A['tag'] in ('elect', 'defeat'):
                 nm = A['msg'].split(': ', 1)[1] if ': ' in A['msg'] else None
-                named = n2c.get(nm)
-                if named is None:
+                cands = names.get(nm) or []     # several candidates may share a name
+                if not cands:
                     ctx.bad('%s-names-nobody' % A['tag'], TRUE)
-            if A['tag'] == 'defeat' and named is not None:
-                if not (named in st_changed and cs[named]['state'] == 'defeated'):
-                    ctx.bad('defeat-names-candidate-whose-status-does-not-change', TRUE)
-            if A['tag'] == 'elect' and named is not None:
-                if not ((named in st_changed and cs[named]['state'] == 'elected') or named in pend_cleared):
-                    ctx.bad('elect-names-candidate-whose-status-does-not-change', TRUE)
+                want = 'defeated' if A['tag'] == 'defeat' else 'elected'
+                hit = [c for c in cands if (c in st_changed and cs[c]['state'] == want) or (A['tag'] == 'elect' and c in pend_cleared)]
+                if cands and not hit:
+                    ctx.bad('%s-names-candidate-whose-status-does-not-change' % A['tag'], TRUE)
+                named = hit[0] if hit else None
             extra = [c for c in st_changed if c != named]
             if ctx.rule == 'qpq':
                 # after the virtual restart, candidates elected earlier and not yet re-elected in this round show as
